@@ -29,4 +29,4 @@ Deliverables, all in the worktree root /tmp/seed-{pid}:
   - `patch.diff`  : the defect only (a `git diff` of the src/ change, without the demonstration), applicable with `git apply` to the original tree;
   - `demo.diff`   : the demonstration only (a diff that adds the test file / module), applicable with `git apply` to the original tree independently of patch.diff;
   - `SEEDED.md`   : which part of the property the defect breaks, what it needs in order to manifest, why the existing tests do not notice, and the exact commands you ran with their results (with and without the defect).
-""" + ("Earlier experiments on this property already used defects that need the following in order to manifest; pick a DIFFERENT mechanism in a DIFFERENT part of the code (something none of these would lead one to look at):\n" + "".join("  - "+t+"\n" for t in taken) if taken else "") + f"""Do not commit anything. Leave the worktree with BOTH diffs applied. Keep the change small (a few lines). When done, reply with a 5-line summary.""")
+""" + ("Earlier experiments on this property already used defects that need the following in order to manifest; pick a DIFFERENT mechanism in a DIFFERENT part of the code (something none of these would lead one to look at):\n" + "".join("  - "+t+"\n" for t in taken) if taken else "") + f"""Do NOT use `git stash` (the stash is shared between worktrees and other people are working in sibling worktrees right now): to test the original code, undo your change with `git apply -R patch.diff` and re-apply it with `git apply patch.diff`. Do not commit anything. Leave the worktree with BOTH diffs applied. Keep the change small (a few lines). When done, reply with a 5-line summary.""")
